@@ -130,6 +130,12 @@ def query_encoding(rep, ex: Explorer, cls=CI):
             want_soft = [("each", x, KEYS_D, PTRUE, ("soft", ("f", material(x)), ("c", 1)))]
             rep.check(canon_items(soft) == canon_items(want_soft), "C.minima-roles", where, f"query {role}-side soft", "soft = ¬falsification(c_j) for every conditional of the base",
                       extracted=show_items(soft), required=show_items(want_soft), function=site)
+            # nothing is ignored when the query's correction sets are read off: every conditional of the base counts, whatever
+            # its key (an ignore list handed over, or the parameter's default, must be empty)
+            iv_ = e.ignore_view if e.ignore is not None else e.data.get("ignore_default")
+            ok_ign = iv_ is None or (isinstance(iv_, tuple) and iv_[0] in ("list", "tuple") and not iv_[1])
+            rep.check(ok_ign, "C.minima-roles", where, f"query {role}-side ignore", "no conditional of the base is ignored when the query's correction sets are read off (a key in the default of `ignore` would drop the conditional stored under it)",
+                      extracted=("default of the parameter: " if e.ignore is None else "") + repr(iv_)[:100], required="nothing ignored", function=site)
             side[role] = ("mcs", e.cid)
         if set(side) != {"v", "f"}:
             continue
